@@ -1,6 +1,8 @@
 package main
 
 import (
+	"strconv"
+	"go/token"
 	"fmt"
 	"go/types"
 	"strings"
@@ -22,6 +24,33 @@ func (x *Exec) doCall(st *State, call *ssa.Call, cont func(*State, Value)) {
 		}
 		it := cc.Value.Type()
 		key := ifaceMethodKey(it, cc.Method.Name())
+		// config devirt <Iface>=<Concrete>[,...]: calls through the interface are resolved to the concrete
+		// type's method; that the dynamic type is the concrete one becomes an obligation at the call
+		if dv := x.c.Config["devirt"]; dv != "" {
+			if iv, ok := recv.(IfaceV); ok {
+				for _, pair := range strings.Split(dv, ",") {
+					kv := strings.SplitN(strings.TrimSpace(pair), "=", 2)
+					if len(kv) != 2 || expandKey(kv[0])+"."+cc.Method.Name() != key {
+						continue
+					}
+					ct := x.P.lookupType(kv[1])
+					if ct == nil {
+						x.unsupportedf("devirt: unknown type %s", kv[1])
+					}
+					sel := x.P.prog.MethodSets.MethodSet(ct).Lookup(cc.Method.Pkg(), cc.Method.Name())
+					if sel == nil {
+						x.unsupportedf("devirt: %s has no method %s", kv[1], cc.Method.Name())
+					}
+					fn := x.P.prog.MethodValue(sel)
+					is := Eq(iv.Tag, IntLit(int64(x.P.typeTag(ct))))
+					x.addObl(st, "pre", "devirt:"+kv[1], is, pos, "dynamic type of the receiver is "+kv[1])
+					st.assume(is)
+					args[0] = x.unbox(st, ct, iv.Val)
+					x.callByKey(st, funcKey(fn), fn, fn.Signature, args, pos, cont)
+					return
+				}
+			}
+		}
 		x.callByKey(st, key, nil, cc.Signature(), args, pos, cont)
 		return
 	}
@@ -261,6 +290,24 @@ func (x *Exec) applyContract(st *State, c *Contract, fn *ssa.Function, sig *type
 	if len(regs) > 0 {
 		x.havoc(st, regs, "call "+short)
 	}
+	hasAssigns := false
+	for _, cl := range c.Clauses {
+		if cl.Kind == "assigns" {
+			hasAssigns = true
+		}
+	}
+	if !hasAssigns && c.Config["frame"] == "any" {
+		// the callee states no frame: everything on the heap may have changed
+		if !x.assignAll {
+			x.addObl(st, "assigns", "call", TFalse, pos, "callee "+short+" has an unrestricted frame; the caller needs one too")
+		}
+		x.events++
+		ev := havocEvent{all: true, id: x.events}
+		for name, cur := range st.heap {
+			st.heap[name] = x.applyHavoc(st, name, x.mapSorts[name], cur, ev)
+		}
+		st.havocs = append(st.havocs, ev)
+	}
 	// the callee may allocate: bump the allocation counter first so that result references are
 	// only known to be below the new counter
 	na := x.decls.Fresh("alloc", SInt)
@@ -365,6 +412,13 @@ func (x *Exec) checkRegionAssignable(st *State, r Region, pos, callee string) {
 		return
 	}
 	var alts []Term
+	if r.IsElem {
+		// the nil slice has no elements: a frame entry over it licenses no write
+		alts = append(alts, Eq(r.Arr, IntLit(0)))
+	} else if r.RootKey == "ghost" {
+		// ghost state of the nil array is never consulted (specifications guard it by isnil)
+		alts = append(alts, Eq(r.Ref, IntLit(0)))
+	}
 	for _, a := range st.assign {
 		if !r.IsElem && r.RootKey == "ghost" && a.IsElem && a.Lo.S == "" {
 			// ghost state attached to an array the caller may overwrite entirely (e.g. ownership of a
@@ -411,9 +465,13 @@ func (x *Exec) havoc(st *State, regs []Region, why string) {
 type havocEvent struct {
 	regs []Region
 	id   int
+	all  bool // every location (callee without a frame)
 }
 
 func (x *Exec) applyHavoc(st *State, name, sort string, cur Term, ev havocEvent) Term {
+	if ev.all {
+		return x.decls.Const(fmt.Sprintf("%s@all%d", name, ev.id), sort)
+	}
 	for ri, r := range ev.regs {
 		if r.IsElem {
 			if !strings.HasPrefix(name, smtName("M!"+r.ElemKey+"!")) {
@@ -526,6 +584,10 @@ func (x *Exec) loopEntry(st *State, l *Loop) {
 	}
 	// havoc cells assigned in the loop
 	fr := st.frames[0]
+	st0cells := map[*Cell]Value{}
+	for _, c := range fr.cells {
+		st0cells[c] = st.cells[c]
+	}
 	for b := range l.Blocks {
 		for _, ins := range b.Instrs {
 			if s, ok := ins.(*ssa.Store); ok {
@@ -546,7 +608,31 @@ func (x *Exec) loopEntry(st *State, l *Loop) {
 		}
 	}
 	if len(st.assign) > 0 && loopWritesHeap(l) {
-		x.havoc(st, st.assign, fmt.Sprintf("loop %d", l.Ordinal))
+		if targets, ok := x.loopStoreRegions(st0cells, st, l); ok {
+			// every heap write of the loop is an element store into a slice that is fixed on entry:
+			// of the assignable regions only those that may be one of these arrays are havocked
+			// (with their ranges); regions over provably different arrays keep their content
+			var regs []Region
+			for _, a := range st.assign {
+				if !a.IsElem {
+					continue
+				}
+				may := false
+				for _, t := range targets {
+					if t.ElemKey == a.ElemKey && !knownDistinct(a.Arr.S, t.Arr.S) && !allocatedLater(st, a.Arr.S, t.Arr.S) && !allocatedLater(st, t.Arr.S, a.Arr.S) {
+						may = true
+					}
+				}
+				if may {
+					regs = append(regs, a)
+				}
+			}
+			if len(regs) > 0 {
+				x.havoc(st, regs, fmt.Sprintf("loop %d (element stores)", l.Ordinal))
+			}
+		} else {
+			x.havoc(st, st.assign, fmt.Sprintf("loop %d", l.Ordinal))
+		}
 	}
 	env = x.loopEnv(st, l)
 	env.assuming = true
@@ -609,6 +695,136 @@ func rootAlloc(fa *ssa.FieldAddr) (*ssa.Alloc, bool) {
 			return nil, false
 		}
 	}
+}
+
+// loopStoreRegions: when all heap writes of the loop are stores through IndexAddr of a slice that is
+// either defined outside the loop or loaded from a local cell the loop does not assign, the
+// written arrays are known on entry; the result lists them (whole arrays). ok=false otherwise
+// (calls, map updates, stores through other pointers).
+func (x *Exec) loopStoreRegions(entryCells map[*Cell]Value, st *State, l *Loop) ([]Region, bool) {
+	fr := st.frames[0]
+	assigned := map[*ssa.Alloc]bool{}
+	for b := range l.Blocks {
+		for _, ins := range b.Instrs {
+			if s, ok := ins.(*ssa.Store); ok {
+				if a, ok := s.Addr.(*ssa.Alloc); ok {
+					assigned[a] = true
+				}
+				if fa, ok := s.Addr.(*ssa.FieldAddr); ok {
+					if a, ok := rootAlloc(fa); ok {
+						assigned[a] = true
+					}
+				}
+			}
+		}
+	}
+	var regs []Region
+	seen := map[string]bool{}
+	for b := range l.Blocks {
+		for _, ins := range b.Instrs {
+			switch s := ins.(type) {
+			case *ssa.Store:
+				if a, ok := s.Addr.(*ssa.Alloc); ok && !a.Heap {
+					continue
+				}
+				if fa, ok := s.Addr.(*ssa.FieldAddr); ok {
+					if a, ok := rootAlloc(fa); ok && !a.Heap {
+						continue
+					}
+				}
+				ia, ok := s.Addr.(*ssa.IndexAddr)
+				if !ok {
+					return nil, false
+				}
+				var v Value
+				switch xv := ia.X.(type) {
+				case *ssa.UnOp:
+					a, ok := xv.X.(*ssa.Alloc)
+					if !ok || a.Heap || assigned[a] || xv.Op != token.MUL {
+						return nil, false
+					}
+					c, ok := fr.cells[a]
+					if !ok {
+						return nil, false
+					}
+					v = entryCells[c]
+				case *ssa.Parameter:
+					v = fr.regs[xv]
+				default:
+					in, ok := ia.X.(ssa.Instruction)
+					if !ok || l.Blocks[in.Block()] {
+						return nil, false
+					}
+					v = fr.regs[ia.X]
+				}
+				sv, ok := v.(SliceV)
+				if !ok {
+					return nil, false
+				}
+				k := typeKey(sv.Elem) + "|" + sv.Arr.S
+				if !seen[k] {
+					seen[k] = true
+					regs = append(regs, Region{IsElem: true, Arr: sv.Arr, ElemKey: typeKey(sv.Elem), Desc: "stored in loop"})
+				}
+			case *ssa.Call:
+				if b, ok := s.Call.Value.(*ssa.Builtin); ok {
+					switch b.Name() {
+					case "len", "cap", "ssa:wrapnilchk", "ssa:deferstack":
+						continue
+					}
+				}
+				return nil, false
+			case *ssa.MapUpdate, *ssa.Go, *ssa.Defer, *ssa.Send:
+				return nil, false
+			}
+		}
+	}
+	return regs, true
+}
+
+// allocatedLater: ref is known (by a path fact "ref < counter+k") to have existed before the
+// allocation that produced later (= counter'+k' with counter' not older): the two differ.
+func allocatedLater(st *State, ref, later string) bool {
+	lb, lo, ok := allocParts(later)
+	if !ok {
+		return false
+	}
+	key := "(< " + ref + " "
+	for _, f := range st.pc {
+		i := strings.Index(f.S, key)
+		if i < 0 {
+			continue
+		}
+		rest := f.S[i+len(key):]
+		e := sexprEnd(rest, 0)
+		bb, bo, ok := allocParts(rest[:e])
+		if !ok {
+			continue
+		}
+		if bb == lb {
+			if bo <= lo {
+				return true
+			}
+			continue
+		}
+		if allocOrd(bb) < allocOrd(lb) {
+			return true
+		}
+	}
+	return false
+}
+
+// allocOrd orders allocation counters by creation: alloc0, then alloc!<n> with increasing n.
+func allocOrd(c string) int {
+	if c == "alloc0" {
+		return -1
+	}
+	if strings.HasPrefix(c, "alloc!") {
+		if n, err := strconv.Atoi(c[len("alloc!"):]); err == nil {
+			return n
+		}
+	}
+	return 1 << 30
 }
 
 func loopWritesHeap(l *Loop) bool {
